@@ -446,6 +446,41 @@ func (r *c17Run) checkList(q *c17List, arg string) {
 			return
 		}
 	}
+	// 5. continuations WITHOUT a limit (the default page size applies): the first element with limit 1,
+	// then the rest by next_key and, separately, by offset 1
+	if N >= 2 {
+		first, pg1, err, pan := r.guard(q, arg, &query.PageRequest{Limit: 1})
+		if pan {
+			return
+		}
+		if err == nil && pg1 != nil && len(pg1.NextKey) > 0 && len(first) == 1 {
+			m.inc("page_walks")
+			pr := &query.PageRequest{Key: pg1.NextKey}
+			rest, _, err, pan := r.guard(q, arg, pr)
+			if pan {
+				return
+			}
+			if err != nil {
+				r.bad(q.name, "unexpected-error", fmt.Sprintf("%s(%q, %s): error %v", q.name, arg, reqStr(pr), err))
+				return
+			}
+			if !r.compare(q, arg, "limit=1 then next_key without limit", append(append([]string{}, first...), rest...), want, "page-repeat", "page-drop") {
+				return
+			}
+			pr = &query.PageRequest{Offset: 1}
+			rest, _, err, pan = r.guard(q, arg, pr)
+			if pan {
+				return
+			}
+			if err != nil {
+				r.bad(q.name, "unexpected-error", fmt.Sprintf("%s(%q, %s): error %v", q.name, arg, reqStr(pr), err))
+				return
+			}
+			if !r.compare(q, arg, "limit=1 then offset=1 without limit", append(append([]string{}, first...), rest...), want, "page-repeat", "page-drop") {
+				return
+			}
+		}
+	}
 	// 4. count_total off: total not demanded
 	lim := uint64(N)
 	if lim == 0 {
